@@ -1,10 +1,43 @@
 """Run Kani harnesses on the injected snapshot and parse per-harness results."""
+import fcntl
 import os
 import re
 import subprocess
 import time
 
 ENV_BASE = {"CARGO_NET_OFFLINE": "true"}
+
+
+class _TargetLock:
+    """Exclusive lock on a shared cargo target directory for the duration of one build + run (see vf/native.py)."""
+    def __init__(self, target_dir):
+        os.makedirs(target_dir, exist_ok=True)
+        self.path = os.path.join(target_dir, ".verif-lock")
+    def __enter__(self):
+        self.f = open(self.path, "w")
+        fcntl.flock(self.f, fcntl.LOCK_EX)
+        return self
+    def __exit__(self, *a):
+        self.f.close()
+
+
+def force_rebuild_if_other_snapshot(target_dir, snapshot):
+    """Call with the target-dir lock held.  cargo's freshness test is by mtime and by paths RELATIVE to the package root, so
+    a crate built from ANOTHER snapshot later than this snapshot was written looks fresh: touch this snapshot's lib.rs when
+    the last build in the directory came from a different snapshot."""
+    marker = os.path.join(target_dir, ".verif-last-snapshot")
+    last = open(marker).read() if os.path.exists(marker) else ""
+    if last != snapshot:
+        lib = os.path.join(snapshot, "src", "lib.rs")
+        if os.path.exists(lib):
+            os.utime(lib, None)
+        open(marker, "w").write(snapshot)
+
+
+def _run_locked(target_dir, cmd, **kw):
+    with _TargetLock(target_dir):
+        force_rebuild_if_other_snapshot(target_dir, kw.get("cwd") or "")
+        return subprocess.run(cmd, **kw)
 
 
 def _env(target_dir):
@@ -16,7 +49,7 @@ def _env(target_dir):
 
 def build_only(snapshot, target_dir, timeout=900):
     t0 = time.time()
-    p = subprocess.run(["cargo", "kani", "--only-codegen", "-Z", "stubbing"], cwd=snapshot, env=_env(target_dir),
+    p = _run_locked(target_dir, ["cargo", "kani", "--only-codegen", "-Z", "stubbing"], cwd=snapshot, env=_env(target_dir),
                        stdout=subprocess.PIPE, stderr=subprocess.STDOUT, text=True, timeout=timeout)
     return p.returncode, p.stdout, time.time() - t0
 
@@ -37,8 +70,8 @@ def run_harnesses(snapshot, target_dir, harnesses, jobs=4, timeout=600, solver=N
         cmd += extra
     t0 = time.time()
     try:
-        p = subprocess.run(cmd, cwd=snapshot, env=_env(target_dir), stdout=subprocess.PIPE,
-                           stderr=subprocess.STDOUT, text=True, timeout=timeout * max(1, (len(harnesses) + jobs - 1) // jobs) + 300)
+        p = _run_locked(target_dir, cmd, cwd=snapshot, env=_env(target_dir), stdout=subprocess.PIPE,
+                        stderr=subprocess.STDOUT, text=True, timeout=timeout * max(1, (len(harnesses) + jobs - 1) // jobs) + 300)
         out = p.stdout
     except subprocess.TimeoutExpired as e:
         out = (e.stdout.decode() if isinstance(e.stdout, bytes) else (e.stdout or "")) + "\nVERIF: cargo kani timed out\n"
@@ -115,8 +148,8 @@ def concrete_playback(snapshot, target_dir, harness, timeout=900, solver=None):
     if solver:
         cmd += ["--solver", solver]
     try:
-        p = subprocess.run(cmd, cwd=snapshot, env=_env(target_dir), stdout=subprocess.PIPE, stderr=subprocess.STDOUT,
-                           text=True, timeout=timeout)
+        p = _run_locked(target_dir, cmd, cwd=snapshot, env=_env(target_dir), stdout=subprocess.PIPE, stderr=subprocess.STDOUT,
+                        text=True, timeout=timeout)
         out = p.stdout
     except subprocess.TimeoutExpired as e:
         return None, "concrete playback timed out"
@@ -148,8 +181,8 @@ def native_replay(snapshot, native_target, harness, vals, timeout=600, panic_onl
     test = harness.module_path + "::verif_replay_entry"
     cmd = ["cargo", "test", "--offline", "--lib", test, "--", "--exact", "--nocapture", "--test-threads", "1"]
     try:
-        p = subprocess.run(cmd, cwd=snapshot, env=env, stdout=subprocess.PIPE, stderr=subprocess.STDOUT, text=True,
-                           timeout=timeout)
+        p = _run_locked(native_target, cmd, cwd=snapshot, env=env, stdout=subprocess.PIPE, stderr=subprocess.STDOUT, text=True,
+                        timeout=timeout)
         out = p.stdout
     except subprocess.TimeoutExpired:
         return {"outcome": "replay timed out", "reproduced": False, "cmd": " ".join(cmd)}
@@ -174,8 +207,8 @@ def native_grid_search(snapshot, native_target, harness, budget=3000000, timeout
     test = harness.module_path + "::verif_replay_entry"
     cmd = ["cargo", "test", "--offline", "--lib", test, "--", "--exact", "--nocapture", "--test-threads", "1"]
     try:
-        p = subprocess.run(cmd, cwd=snapshot, env=env, stdout=subprocess.PIPE, stderr=subprocess.STDOUT, text=True,
-                           timeout=timeout)
+        p = _run_locked(native_target, cmd, cwd=snapshot, env=env, stdout=subprocess.PIPE, stderr=subprocess.STDOUT, text=True,
+                        timeout=timeout)
         out = p.stdout
     except subprocess.TimeoutExpired:
         return {"found": False, "outcome": "grid search timed out", "cmd": " ".join(cmd)}
